@@ -19,6 +19,7 @@ FIRST = {
     "C06-2": "caught (replay)", "C07-2": "missed", "C08": "caught (replay)",
     "C09-2": "caught (replay)", "C10-2": "caught (replay)", "C11-2": "broken correspondence, no-failing-input-found", "C12-2": "caught (replay)",
     "C13-2": "missed", "C14-2": "broken correspondence, no-failing-input-found", "C15-2": "caught (replay)",
+    "C16-2": "missed", "C17-2": "missed", "C18-2": "missed", "C19-2": "caught (replay)", "C20-2": "caught (replay)",
 }
 
 
